@@ -106,7 +106,7 @@ func verifyDANE(recs []dns.TLSA, connState tls.ConnectionState) (overridePKIX bo
 	// Don't bother building a temporary certificate pool if there are no
 	// records to check.
 	if len(taRecs) == 0 {
-		return true, &exterrors.SMTPError{
+		return false, &exterrors.SMTPError{
 			Code:         550,
 			EnhancedCode: exterrors.EnhancedCode{5, 7, 0},
 			Message:      "No matching TLSA records",
